@@ -16,7 +16,12 @@ Step ==
   /\ l' = l + 1 /\ UNCHANGED tid
   /\ LET e == Traces[tid][l] a == F(e, "a", 0) op == F(e, "op", "") t == F(e, "t", now) IN
      /\ now' = IF e.e \in {"init", "fin"} THEN now ELSE t
-     /\ IF op # "tick" \/ a \notin Ids THEN UNCHANGED <<tk, bad>>
+     /\ IF e.e = "fin" THEN
+           \* a run that ends because nothing is left to do cannot leave a step of a ticker pending: its date is always
+           \* reachable (also a period of infinity - virtual time does reach infinity)
+           (IF e.ok /\ \E b \in Ids : \E j \in DOMAIN tk[b] : tk[b][j].wait /\ ~tk[b][j].neg /\ ~tk[b][j].exc
+            THEN Fail("C14.tick_never_came") ELSE UNCHANGED <<tk, bad>>)
+        ELSE IF op # "tick" \/ a \notin Ids THEN UNCHANGED <<tk, bad>>
         ELSE LET i == e.i  st == tk[a][i] IN
         CASE e.e = "b" ->
                LET last == IF st.on THEN st.last ELSE t
